@@ -255,6 +255,12 @@ def run(ck):
               "and its message write while receiving is re-initialised by reset() (a framing decision, a counter or a header left over "
               "from the previous message makes the next one arrive with a different body or not at all)", min_instances=12)
 
+    # ---------------- facts shared with C03 ----------------
+    ck.borrow("C03", ["C03-R6"], "C02-R8",
+              "a streamed response reaches the client chunk by chunk only if the reader accepts the size lines the writer emits: the parsed "
+              "chunk size is stored exactly when the conversion consumed hex digits and the value is not negative",
+              key_pred=lambda k: k.startswith("Chunk::parse/size-"), min_instances=2)
+
     # ---------------- facts shared with C05 ----------------
     # a response written through a stream object that is moved (into a lambda, a smart pointer, another variable) must still arrive whole
     ck.borrow("C05", ["C05-R4"], "C02-R6",
